@@ -7,6 +7,18 @@ def _sig_hash(s: str) -> str:
     return hashlib.sha256(s.encode()).hexdigest()[:10]
 
 
+def succeeded(oc: str) -> bool:
+    """The operation reported success: it returned, or (command line) the process ended with
+    status 0 -- however the implementation ends a process (return, sys.exit, os._exit)."""
+    return oc in ("ok", "sysexit:0", "sysexit:None", "exit:0")
+
+
+def reported(oc: str) -> bool:
+    """A reported (non-internal) error of the API: one of bitproto's own error classes
+    other than InternalError, or an operating-system error."""
+    return oc.startswith(("parser_error:", "renderer_error:", "reported_error:", "oserror:"))
+
+
 # ------------------------------------------------------------------------ C09
 def c09_violations(plan: dict, result: dict):
     """Totality: every operation ends in an allowed outcome within its step budget."""
@@ -30,23 +42,21 @@ def c09_violations(plan: dict, result: dict):
                 sig = "HARNESS:crash-without-fault@" + op
         elif crash_fired:
             sig = "swallowed-crash@%s->%s" % (op, oc.split(":")[0])
-        elif op in ("parse", "parse_string"):
-            if not (oc == "ok" or oc.startswith("parser_error:") or oc.startswith("oserror:")):
-                sig = "bad-outcome@%s:%s" % (op, oc)
-        elif op == "render":
-            if not (oc == "ok" or oc.startswith("renderer_error:") or oc.startswith("oserror:")):
-                sig = "bad-outcome@%s:%s" % (op, oc)
-        elif op == "lint":
-            if oc != "ok":
+        elif op in ("parse", "parse_string", "render", "lint"):
+            # the property forbids internal exceptions, tracebacks and hangs; which of its own
+            # error classes the implementation reports with is its business
+            if not (oc == "ok" or reported(oc)):
                 sig = "bad-outcome@%s:%s" % (op, oc)
         elif op == "cli":
-            if oc == "ok" or oc in ("sysexit:0", "sysexit:2"):
+            # a process may end by returning, by sys.exit or by os._exit: status 0 is success
+            # (judged by c09_cli_rules), any other status is a reported failure and needs a
+            # diagnostic on stderr or stdout
+            if succeeded(oc):
                 pass
-            elif oc.startswith("exit:"):
-                code = oc.split(":", 1)[1]
-                if code in ("0", "None"):
-                    sig = "cli:exit-%s-from-fatal" % code
-                elif rec.get("stderr_len", 0) == 0 and rec.get("stdout_len", 0) == 0:
+            elif oc == "exit:None":
+                sig = "cli:exit-None-from-fatal"  # the real os._exit(None) is a TypeError traceback
+            elif oc.startswith(("exit:", "sysexit:")):
+                if rec.get("stderr_len", 0) == 0 and rec.get("stdout_len", 0) == 0 and not rec.get("exit_msg_len"):
                     sig = "cli:silent-failure"
             else:
                 sig = "bad-outcome@%s:%s" % (op, oc)
@@ -67,7 +77,7 @@ def c09_cli_rules(plan: dict, result: dict):
     hist = {r["i"]: r for r in result["history"]}
     for i, op in enumerate(ops):
         rec = hist.get(i)
-        if rec is None or op["op"] != "cli" or rec.get("outcome") != "ok" or rec.get("fired"):
+        if rec is None or op["op"] != "cli" or not succeeded(rec.get("outcome", "")) or rec.get("fired"):
             continue
         argv = list(op.get("argv") or [])
         if not argv or argv[0] not in ("c", "go", "py") or any(a in argv for a in ("-c", "--check", "-h", "--help", "-v", "--version")):
@@ -77,13 +87,13 @@ def c09_cli_rules(plan: dict, result: dict):
         # leaves an up-to-date file untouched is fine (no assumption about file names either)
         have = len(rec.get("outputs") or {}) if "outputs" in rec else None
         if have is not None and have < need and len(rec.get("wrote") or []) < need:
-            out.append({"sig": "cli:success-without-output", "op_index": i, "op": "cli", "outcome": "ok", "msg": "exit status 0 for %r but the output directory holds %d generated file(s) and %d were written" % (argv, have, len(rec.get("wrote") or []))})
+            out.append({"sig": "cli:success-without-output", "op_index": i, "op": "cli", "outcome": rec["outcome"], "msg": "exit status 0 for %r but the output directory holds %d generated file(s) and %d were written" % (argv, have, len(rec.get("wrote") or []))})
             continue
         pair = op.get("paired_parse")
         if pair is not None and pair in hist:
             pr = hist[pair]
             if pr.get("outcome", "").startswith("parser_error:") and not pr.get("fired"):
-                out.append({"sig": "cli:success-for-rejected-schema", "op_index": i, "op": "cli", "outcome": "ok", "msg": "parse() of the same path was rejected (%s) but the command line exited 0" % pr["outcome"]})
+                out.append({"sig": "cli:success-for-rejected-schema", "op_index": i, "op": "cli", "outcome": rec["outcome"], "msg": "parse() of the same path was rejected (%s) but the command line exited 0" % pr["outcome"]})
     return out
 
 
@@ -96,13 +106,13 @@ def c09_silent_failures(res0: dict, res1: dict):
     out = []
     by_i = {r["i"]: r for r in res0["history"]}
     for rec in res1["history"]:
-        if rec["op"] not in ("render", "cli") or rec.get("outcome") != "ok":
+        if rec["op"] not in ("render", "cli") or not succeeded(rec.get("outcome", "")):
             continue
         fired = [f for f in (rec.get("fired") or []) if f["kind"] != "crash" and f["seam"] in ("open_w", "write", "close_w")]
         if not fired:
             continue
         r0 = by_i.get(rec["i"])
-        if r0 is None or r0.get("outcome") != "ok":
+        if r0 is None or not succeeded(r0.get("outcome", "")):
             continue
         o0, o1 = r0.get("outputs") or {}, rec.get("outputs") or {}
         for base in r0.get("wrote") or []:
@@ -152,8 +162,8 @@ def c18_violations(plan: dict, result: dict, goldens: dict):
         g = goldens[kid]
         if g.get("disagree"):
             continue  # reported separately
-        gok = g["outcome"] == "ok"
-        sok = oc == "ok"
+        gok = succeeded(g["outcome"])
+        sok = succeeded(oc)
         sig = None
         detail = ""
         if gok != sok:
